@@ -513,6 +513,9 @@ fn run_line(line: &str) -> Option<String> {
         }
         "qlatency" if f.len() == 2 => Some(format!("{} => {}", line, run_latency(f[1].parse().unwrap_or(1)))),
         "qdroprace" if f.len() == 2 => Some(format!("{} => {}", line, run_droprace(f[1].parse().unwrap_or(1)))),
+        "qnothread" => Some(format!("qnothread => {}", run_nothread())),
+        "qfirst" if f.len() == 2 => Some(format!("{} => {}", line, run_first(f[1].parse().unwrap_or(1)))),
+        "qunwind" if f.len() == 2 => Some(format!("{} => {}", line, run_unwind(f[1].parse().unwrap_or(1)))),
         "qdeep" if f.len() == 2 => Some(format!("{} => {}", line, run_deep(f[1].parse().unwrap_or(1)))),
         "qemitdrop" if f.len() == 2 => Some(format!("{} => {}", line, run_emitdrop(f[1].parse().unwrap_or(1)))),
         "qstress" if f.len() == 4 => {
@@ -727,6 +730,180 @@ fn run_droprace(rounds: usize) -> String {
         }
         if !released {
             return format!("wrapped-sink-not-released-after-concurrent-last-drops-round-{}", round);
+        }
+    }
+    "ok".to_string()
+}
+
+/// first emits on a fresh sink from several handles at the same moment: one consumer only (the wrapped sink is
+/// never entered concurrently), every accepted metric delivered once, each producer's metrics in order
+struct Exclusive {
+    inside: AtomicU64,
+    overlap: Arc<AtomicU64>,
+    got: Arc<std::sync::Mutex<Vec<String>>>,
+}
+impl MetricSink for Exclusive {
+    fn emit(&self, m: &str) -> io::Result<usize> {
+        if self.inside.swap(1, Ordering::SeqCst) == 1 {
+            self.overlap.fetch_add(1, Ordering::SeqCst);
+        }
+        for _ in 0..200 {
+            std::hint::spin_loop();
+        }
+        self.got.lock().unwrap().push(m.to_string());
+        self.inside.store(0, Ordering::SeqCst);
+        Ok(m.len())
+    }
+}
+
+fn run_first(rounds: usize) -> String {
+    for round in 0..rounds {
+        let overlap = Arc::new(AtomicU64::new(0));
+        let got = Arc::new(std::sync::Mutex::new(Vec::new()));
+        let sink = Exclusive { inside: AtomicU64::new(0), overlap: overlap.clone(), got: got.clone() };
+        let q = if round % 2 == 0 { QueuingMetricSink::from(sink) } else { QueuingMetricSink::with_capacity(sink, 64) };
+        let gate = Arc::new(AtomicU64::new(0));
+        let n = 4u64;
+        let mut hs = Vec::new();
+        for t in 0..n {
+            let q = q.clone();
+            let gate = gate.clone();
+            hs.push(std::thread::spawn(move || {
+                gate.fetch_add(1, Ordering::AcqRel);
+                while gate.load(Ordering::Acquire) < n {
+                    std::hint::spin_loop();
+                }
+                let mut ok = 0;
+                for i in 0..6 {
+                    if q.emit(&format!("t{}.{}", t, i)).is_ok() {
+                        ok += 1;
+                    }
+                }
+                ok
+            }));
+        }
+        let accepted: usize = hs.into_iter().map(|h| h.join().unwrap_or(0)).sum();
+        let t0 = Instant::now();
+        while got.lock().unwrap().len() < accepted && t0.elapsed() < Duration::from_secs(3) {
+            std::thread::yield_now();
+        }
+        drop(q);
+        let g = got.lock().unwrap().clone();
+        if overlap.load(Ordering::SeqCst) > 0 {
+            return format!("the-wrapped-sink-was-entered-concurrently-round-{}", round);
+        }
+        if g.len() != accepted {
+            return format!("accepted-{}-delivered-{}-round-{}", accepted, g.len(), round);
+        }
+        for t in 0..n {
+            let pfx = format!("t{}.", t);
+            let seq: Vec<usize> = g.iter().filter(|m| m.starts_with(&pfx)).filter_map(|m| m[pfx.len()..].parse().ok()).collect();
+            if seq.windows(2).any(|w| w[0] >= w[1]) {
+                return format!("producer-{}-out-of-order-or-duplicated-round-{}", t, round);
+            }
+        }
+    }
+    "ok".to_string()
+}
+
+/// the operating system refuses to create the worker thread (address-space limit, in a child process): the
+/// constructor may fail loudly, but it must not hand out a sink that accepts metrics nobody will ever deliver
+extern "C" {
+    fn getrlimit(resource: i32, rlim: *mut [u64; 2]) -> i32;
+    fn setrlimit(resource: i32, rlim: *const [u64; 2]) -> i32;
+}
+const RLIMIT_AS: i32 = 9;
+
+fn child_nothread() -> String {
+    let vm_kb: u64 = std::fs::read_to_string("/proc/self/status")
+        .ok()
+        .and_then(|s| s.lines().find(|l| l.starts_with("VmSize:")).and_then(|l| l.split_whitespace().nth(1).and_then(|x| x.parse().ok())))
+        .unwrap_or(0);
+    if vm_kb == 0 {
+        return "inconclusive".to_string();
+    }
+    let coll = Arc::new(Collect { got: std::sync::Mutex::new(Vec::new()) });
+    let sink = CollSink(coll.clone());
+    let mut old = [0u64; 2];
+    unsafe {
+        if getrlimit(RLIMIT_AS, &mut old) != 0 {
+            return "inconclusive".to_string();
+        }
+        let new = [vm_kb * 1024 + (1 << 20), old[1]];
+        if setrlimit(RLIMIT_AS, &new) != 0 {
+            return "inconclusive".to_string();
+        }
+    }
+    let built = catch_unwind(AssertUnwindSafe(move || QueuingMetricSink::from(sink)));
+    let r = match built {
+        Err(_) => "constructor-failed-loudly".to_string(),
+        Ok(q) => {
+            let accepted = q.emit("m").is_ok();
+            unsafe {
+                let _ = setrlimit(RLIMIT_AS, &old);
+            }
+            let t0 = Instant::now();
+            while coll.got.lock().unwrap().is_empty() && t0.elapsed() < Duration::from_millis(1500) {
+                std::thread::sleep(Duration::from_millis(5));
+            }
+            let delivered = !coll.got.lock().unwrap().is_empty();
+            std::mem::forget(q);
+            match (accepted, delivered) {
+                (true, false) => "accepted-a-metric-but-no-worker-thread-exists-to-deliver-it".to_string(),
+                (true, true) => "inconclusive".to_string(), // the thread could be created after all
+                (false, _) => "emit-refused".to_string(),
+            }
+        }
+    };
+    unsafe {
+        let _ = setrlimit(RLIMIT_AS, &old);
+    }
+    r
+}
+
+fn run_nothread() -> String {
+    let exe = match std::env::current_exe() {
+        Ok(e) => e,
+        Err(_) => return "inconclusive".to_string(),
+    };
+    match std::process::Command::new(exe).arg("child-nothread").stderr(std::process::Stdio::null()).output() {
+        Ok(o) => {
+            let t = String::from_utf8_lossy(&o.stdout).trim().to_string();
+            if t.is_empty() {
+                "inconclusive".to_string() // the child died of the limit itself
+            } else {
+                t
+            }
+        }
+        Err(_) => "inconclusive".to_string(),
+    }
+}
+
+/// the last handle is dropped by a thread that is unwinding from a panic (its own, not the sink's): the stop
+/// request is made all the same, the backlog is handed over and the wrapped sink dropped
+fn run_unwind(rounds: usize) -> String {
+    for round in 0..rounds {
+        let coll = Arc::new(Collect { got: std::sync::Mutex::new(Vec::new()) });
+        let q = if round % 2 == 0 { QueuingMetricSink::from(CollSink(coll.clone())) } else { QueuingMetricSink::with_capacity(CollSink(coll.clone()), 4) };
+        let owner = std::thread::spawn(move || {
+            let q = q;
+            let _ = q.emit("a");
+            let _ = q.emit("b");
+            if q.queued() < u64::MAX {
+                panic!("the owner of the last handle panics");
+            }
+            drop(q);
+        });
+        let _ = owner.join();
+        let t0 = Instant::now();
+        while (Arc::strong_count(&coll) > 1 || coll.got.lock().unwrap().len() < 2) && t0.elapsed() < Duration::from_secs(2) {
+            std::thread::yield_now();
+        }
+        if coll.got.lock().unwrap().len() < 2 {
+            return format!("accepted-metrics-lost-when-the-last-handle-was-dropped-by-unwinding-round-{}", round);
+        }
+        if Arc::strong_count(&coll) > 1 {
+            return format!("wrapped-sink-not-released-after-the-last-handle-was-dropped-by-unwinding-round-{}", round);
         }
     }
     "ok".to_string()
@@ -1082,6 +1259,10 @@ fn main() {
     let args: Vec<String> = std::env::args().collect();
     let stdout = io::stdout();
     let mut out = io::BufWriter::new(stdout.lock());
+    if args.get(1).map(|s| s.as_str()) == Some("child-nothread") {
+        println!("{}", child_nothread());
+        return;
+    }
     if args.get(1).map(|s| s.as_str()) == Some("replay") {
         for line in io::stdin().lock().lines() {
             if let Some(l) = run_line(&line.unwrap()) {
@@ -1101,7 +1282,7 @@ fn main() {
     let mut count = 0u64;
     let mut extra = 1u64; // cases run by shard 0 only: not part of the sharded index
     backpressure(&mut out, &mut count);
-    for ops in ["e0:6130,e0:6131,k,s0,d0", "c0,e1:6130,p,e0:6131,x3,d0,d1", "d0", "e0:6130,d0,k"] {
+    for ops in ["e0:6130,e0:6131,e0:6132,e0:6133,k,e0:6134,e0:6135,k,k,s0,d0", "e0:6130,e0:6131,k,s0,d0", "c0,e1:6130,p,e0:6131,x3,d0,d1", "d0", "e0:6130,d0,k"] {
         if !shard0 {
             break;
         }
@@ -1163,6 +1344,14 @@ fn main() {
         if let Some(l) = run_line(&format!("qemitdrop {}", if tier == "quick" { 8000 } else { 100000 })) {
             writeln!(out, "{}", l).unwrap();
             extra += 1;
+        }
+    }
+    if SHARD_K.load(Ordering::Relaxed) == 4 % SHARD_N.load(Ordering::Relaxed) {
+        for l in ["qnothread".to_string(), format!("qfirst {}", if tier == "quick" { 3000 } else { 60000 }), format!("qunwind {}", if tier == "quick" { 20 } else { 500 })] {
+            if let Some(o) = run_line(&l) {
+                writeln!(out, "{}", o).unwrap();
+                extra += 1;
+            }
         }
     }
     if SHARD_K.load(Ordering::Relaxed) == 2 % SHARD_N.load(Ordering::Relaxed) {
